@@ -263,3 +263,226 @@ Proof.
     simpl in H1. apply in_app_iff. destruct H1 as [<-|H1]; [right; left; reflexivity|].
     apply in_app_iff in H1 as [H1|H1]; [left; exact H1|right; right; exact H1].
 Qed.
+
+(* ---------- order independence: Go's map iteration order is irrelevant ---------- *)
+Definition str_lt (a b : str) : Prop := str_ltb a b = true.
+
+Lemma str_ltb_irrefl a : str_ltb a a = false.
+Proof. induction a as [|x a IH]; simpl; [reflexivity|]. rewrite N.ltb_irrefl, N.eqb_refl; exact IH. Qed.
+
+Lemma str_ltb_trans a : forall b c, str_ltb a b = true -> str_ltb b c = true -> str_ltb a c = true.
+Proof.
+  induction a as [|x a IH]; intros [|y b] [|z c]; simpl; try discriminate; auto.
+  destruct (N.ltb_spec x y) as [Hxy|Hxy].
+  - intros _. destruct (N.ltb_spec y z) as [Hyz|Hyz].
+    + intros _. destruct (N.ltb_spec x z); [reflexivity|lia].
+    + destruct (N.eqb_spec y z) as [->|]; [|discriminate]. intros _.
+      destruct (N.ltb_spec x z); [reflexivity|lia].
+  - destruct (N.eqb_spec x y) as [->|]; [|discriminate]. intros Hab.
+    destruct (N.ltb_spec y z) as [Hyz|Hyz]; [reflexivity|].
+    destruct (N.eqb_spec y z) as [->|]; [|discriminate]. apply IH; exact Hab.
+Qed.
+
+Lemma str_ltb_total a : forall b, str_ltb a b = false -> str_ltb b a = false -> a = b.
+Proof.
+  induction a as [|x a IH]; intros [|y b]; simpl; try discriminate; auto.
+  destruct (N.ltb_spec x y) as [Hxy|Hxy]; [discriminate|].
+  destruct (N.ltb_spec y x) as [Hyx|Hyx].
+  - destruct (N.eqb_spec x y); [lia|]. discriminate.
+  - assert (x = y) by lia; subst. rewrite N.eqb_refl. intros H1 H2. f_equal. apply IH; assumption.
+Qed.
+
+Definition glt (g h : group) : Prop := str_lt (fst g) (fst h).
+
+Lemma glt_trans g h k : glt g h -> glt h k -> glt g k.
+Proof. unfold glt, str_lt; apply str_ltb_trans. Qed.
+Lemma glt_irrefl g : ~ glt g g.
+Proof. unfold glt, str_lt; rewrite str_ltb_irrefl; discriminate. Qed.
+
+Lemma insert_group_perm g l : Permutation (insert_group g l) (g :: l).
+Proof.
+  induction l as [|h t IH]; simpl; [apply Permutation_refl|].
+  destruct (str_ltb (fst h) (fst g)); [|apply Permutation_refl].
+  eapply Permutation_trans; [apply perm_skip; exact IH|apply perm_swap].
+Qed.
+
+Lemma sort_groups_perm c : Permutation (sort_groups c) c.
+Proof.
+  induction c as [|g c IH]; simpl; [constructor|].
+  eapply Permutation_trans; [apply insert_group_perm|apply perm_skip; exact IH].
+Qed.
+
+Lemma insert_group_hd g l a :
+  glt a g -> HdRel glt a l -> HdRel glt a (insert_group g l).
+Proof.
+  intros Hag Hl. destruct l as [|h t]; simpl; [constructor; exact Hag|].
+  destruct (str_ltb (fst h) (fst g)); constructor; [inversion Hl; assumption|exact Hag].
+Qed.
+
+Lemma insert_group_sorted g l :
+  Sorted glt l -> ~ In (fst g) (map fst l) -> Sorted glt (insert_group g l).
+Proof.
+  induction l as [|h t IH]; simpl; intros Hs Hni; [repeat constructor|].
+  inversion Hs as [|? ? Hst Hhd]; subst.
+  destruct (str_ltb (fst h) (fst g)) eqn:E.
+  - constructor; [apply IH; [exact Hst|tauto]|]. apply insert_group_hd; [exact E|exact Hhd].
+  - constructor; [exact Hs|]. constructor. unfold glt, str_lt.
+    destruct (str_ltb (fst g) (fst h)) eqn:F; [reflexivity|].
+    exfalso; apply Hni; left. apply str_ltb_total; assumption.
+Qed.
+
+Lemma sort_groups_sorted c : NoDup (map fst c) -> Sorted glt (sort_groups c).
+Proof.
+  induction c as [|g c IH]; simpl; intros Hnd; [constructor|].
+  inversion Hnd as [|? ? Hni Hnd']; subst.
+  apply insert_group_sorted; [apply IH; exact Hnd'|].
+  intros Hin; apply Hni. eapply Permutation_in; [|exact Hin].
+  apply Permutation_map, sort_groups_perm.
+Qed.
+
+Lemma sorted_perm_unique l : forall l',
+  Sorted glt l -> Sorted glt l' -> Permutation l l' -> l = l'.
+Proof.
+  induction l as [|a l IH]; intros l' Hs Hs' Hp.
+  - apply Permutation_nil in Hp; subst; reflexivity.
+  - destruct l' as [|b l']; [apply Permutation_sym, Permutation_nil in Hp; discriminate|].
+    apply Sorted_StronglySorted in Hs; [|intros x y z; apply glt_trans].
+    apply Sorted_StronglySorted in Hs'; [|intros x y z; apply glt_trans].
+    inversion Hs as [|? ? Hsl Hal]; subst. inversion Hs' as [|? ? Hsl' Hbl']; subst.
+    assert (a = b) as ->.
+    { assert (Ha : In a (b :: l')) by (eapply Permutation_in; [exact Hp|left; reflexivity]).
+      assert (Hb : In b (a :: l)) by (eapply Permutation_in; [apply Permutation_sym; exact Hp|left; reflexivity]).
+      destruct Ha as [->|Ha]; [reflexivity|]. destruct Hb as [->|Hb]; [reflexivity|].
+      rewrite Forall_forall in Hal, Hbl'. exfalso. apply (glt_irrefl a).
+      eapply glt_trans; [apply Hal; exact Hb|apply Hbl'; exact Ha]. }
+    f_equal. apply IH.
+    + apply StronglySorted_Sorted; exact Hsl.
+    + apply StronglySorted_Sorted; exact Hsl'.
+    + eapply Permutation_cons_inv; exact Hp.
+Qed.
+
+Lemma sort_groups_order_independent c c' :
+  NoDup (map fst c) -> Permutation c c' -> sort_groups c = sort_groups c'.
+Proof.
+  intros Hnd Hp. apply sorted_perm_unique.
+  - apply sort_groups_sorted; exact Hnd.
+  - apply sort_groups_sorted. eapply Permutation_NoDup; [apply Permutation_map; exact Hp|exact Hnd].
+  - eapply Permutation_trans; [apply sort_groups_perm|].
+    eapply Permutation_trans; [exact Hp|apply Permutation_sym, sort_groups_perm].
+Qed.
+
+Lemma order_independent c c' :
+  NoDup (map fst c) -> Permutation c c' ->
+  build c = build c' /\ validate c = validate c' /\
+  forall s cv, lookup (build c) s cv = lookup (build c') s cv.
+Proof.
+  intros Hnd Hp. assert (E : claims c = claims c').
+  { unfold claims; rewrite (sort_groups_order_independent c c' Hnd Hp); reflexivity. }
+  unfold build, validate; rewrite E; repeat split; reflexivity.
+Qed.
+
+(* ---------- the parser accepts only  ws* digits (ws* "-" ws* digits)? ws*  ---------- *)
+Definition all_space (s : str) : Prop := forallb is_space s = true.
+
+Inductive vlan_syntax : str -> N -> N -> Prop :=
+| VS_single pre d post v :
+    all_space pre -> all_space post -> d <> [] -> digits_val 0 d = Some v ->
+    vlan_syntax (pre ++ d ++ post) v v
+| VS_range pre d1 w1 w2 d2 post a b :
+    all_space pre -> all_space w1 -> all_space w2 -> all_space post ->
+    d1 <> [] -> d2 <> [] -> digits_val 0 d1 = Some a -> digits_val 0 d2 = Some b ->
+    vlan_syntax (pre ++ d1 ++ w1 ++ [dash] ++ w2 ++ d2 ++ post) a b.
+
+Lemma all_space_app a b : all_space a -> all_space b -> all_space (a ++ b).
+Proof. unfold all_space; rewrite forallb_app; intros -> ->; reflexivity. Qed.
+Lemma all_space_rev a : all_space a -> all_space (rev a).
+Proof.
+  unfold all_space; rewrite !forallb_forall; intros H x Hx; apply H, in_rev; exact Hx.
+Qed.
+
+Lemma drop_space_spec s : exists pre, s = pre ++ drop_space s /\ all_space pre.
+Proof.
+  induction s as [|c s [pre [E Hp]]]; simpl.
+  - exists []; split; reflexivity.
+  - destruct (is_space c) eqn:Hc.
+    + exists (c :: pre); split; [simpl; f_equal; exact E|]. unfold all_space; simpl; rewrite Hc; exact Hp.
+    + exists []; split; reflexivity.
+Qed.
+
+Lemma trim_spec s : exists pre post, s = pre ++ trim s ++ post /\ all_space pre /\ all_space post.
+Proof.
+  destruct (drop_space_spec s) as [pre [E Hp]].
+  destruct (drop_space_spec (rev (drop_space s))) as [q [F Hq]].
+  exists pre, (rev q); repeat split; [|exact Hp|apply all_space_rev; exact Hq].
+  unfold trim. rewrite <- rev_app_distr, <- F, rev_involutive. exact E.
+Qed.
+
+Fixpoint join_dash (ps : list str) : str :=
+  match ps with
+  | [] => []
+  | [p] => p
+  | p :: rest => p ++ dash :: join_dash rest
+  end.
+
+Lemma split_dash_aux_nonempty cur s : split_dash_aux cur s <> [].
+Proof. revert cur; induction s as [|c s IH]; intros cur; simpl; [discriminate|]. destruct (N.eqb c dash); [discriminate|apply IH]. Qed.
+
+Lemma split_dash_aux_join s : forall cur, join_dash (split_dash_aux cur s) = rev cur ++ s.
+Proof.
+  induction s as [|c s IH]; intros cur; simpl.
+  - rewrite app_nil_r; reflexivity.
+  - destruct (N.eqb_spec c dash) as [->|Hc].
+    + specialize (IH []). simpl in IH.
+      destruct (split_dash_aux [] s) as [|p ps] eqn:E; [exfalso; eapply split_dash_aux_nonempty; exact E|].
+      simpl. f_equal. f_equal. exact IH.
+    + rewrite IH; simpl. rewrite <- app_assoc; reflexivity.
+Qed.
+
+Lemma parse_uint16_spec s v : parse_uint16 s = Some v -> s <> [] /\ digits_val 0 s = Some v.
+Proof.
+  unfold parse_uint16. destruct s as [|c s]; [discriminate|].
+  destruct (digits_val 0 (c :: s)) as [w|]; [|discriminate].
+  destruct (N.leb w 65535); [|discriminate]. intros E; inversion E; subst. split; [discriminate|reflexivity].
+Qed.
+
+Lemma parse_vlan_range_syntax s l :
+  parse_vlan_range s = Some l ->
+  exists a b, vlan_syntax s a b /\ (1 <= a <= b)%N /\ (b <= 4094)%N /\ l = nseq a (N.to_nat (b - a + 1)).
+Proof.
+  unfold parse_vlan_range.
+  destruct (trim_spec s) as [pre [post [Es [Hpre Hpost]]]].
+  destruct (contains_dash (trim s)).
+  - destruct (split_dash (trim s)) as [|p0 [|p1 [|? ?]]] eqn:Sp; try discriminate.
+    assert (Em : trim s = p0 ++ dash :: p1).
+    { pose proof (split_dash_aux_join (trim s) []) as J. unfold split_dash in Sp. rewrite Sp in J. simpl in J. symmetry; exact J. }
+    destruct (parse_uint16 (trim p0)) as [a|] eqn:Pa; [|discriminate].
+    destruct (parse_uint16 (trim p1)) as [b|] eqn:Pb; [|discriminate].
+    destruct (N.ltb_spec b a); [discriminate|].
+    destruct (N.eqb_spec a 0); [discriminate|].
+    destruct (N.eqb_spec b 0); [discriminate|]. simpl.
+    destruct (N.ltb_spec 4094 b); [discriminate|].
+    intros E; inversion E; subst l; clear E.
+    apply parse_uint16_spec in Pa as [Na Da]. apply parse_uint16_spec in Pb as [Nb Db].
+    destruct (trim_spec p0) as [w0 [w1 [E0 [Hw0 Hw1]]]].
+    destruct (trim_spec p1) as [w2 [w3 [E1 [Hw2 Hw3]]]].
+    exists a, b; split; [|repeat split; try lia].
+    remember (trim p0) as d1 eqn:Hd1. remember (trim p1) as d2 eqn:Hd2. remember (trim s) as m eqn:Hm.
+    assert (Es' : s = (pre ++ w0) ++ d1 ++ w1 ++ [dash] ++ w2 ++ d2 ++ (w3 ++ post)).
+    { rewrite Es, Em, E0, E1. repeat (rewrite <- app_assoc; simpl). reflexivity. }
+    rewrite Es'. apply VS_range; auto using all_space_app.
+  - destruct (parse_uint16 (trim s)) as [v|] eqn:Pv; [|discriminate].
+    destruct (N.eqb_spec v 0); [discriminate|].
+    destruct (N.ltb_spec 4094 v); [discriminate|].
+    intros E; inversion E; subst l; clear E.
+    apply parse_uint16_spec in Pv as [Nv Dv].
+    exists v, v; split; [|repeat split; try lia].
+    + rewrite Es. apply VS_single; auto.
+    + replace (v - v + 1)%N with 1%N by lia. reflexivity.
+Qed.
+
+(* decimal digits only: a value accepted by digits_val is built from '0'..'9' *)
+Lemma digits_val_digits s : forall acc v, digits_val acc s = Some v -> forallb is_digit s = true.
+Proof.
+  induction s as [|c s IH]; intros acc v; simpl; [reflexivity|].
+  destruct (is_digit c); [|discriminate]. intros H; simpl; eapply IH; exact H.
+Qed.
